@@ -553,12 +553,17 @@ func nwAllShapes(maxNodes int) []string {
 	return r
 }
 
-var nwNameAlphabet = []byte{' ', '_', '\'', '(', ')', ',', ':', ';', '\t', '\n', '\r', 'a', 0x80}
+// nwNameAlphabet: the bytes the codec treats specially, an ordinary letter, and
+// bytes that a reader or writer might wrongly treat as white space or as a
+// format directive (VT, FF, NUL, DEL, 0x85 = NEL, 0xa0 = NBSP, 0xff, '%').
+var nwNameAlphabet = []byte{' ', '_', '\'', '(', ')', ',', ':', ';', '\t', '\n', '\r', 'a', 0x80,
+	0x0b, 0x0c, 0x00, 0x7f, 0x85, 0xa0, 0xff, '%'}
 
 var nwNames = []string{
 	"", "a", "n1", "a b", " ", "  a ", "_", "a_b", "'", "''", "a'b", "'a'", "(", ")", "(a,b)c:1;",
 	",", ":", ";", "a:1", "\t", "a\tb", "\n", "a\nb", "\r", "a\r\nb", "a\n'b", "\n_", "\x80", "\xc3\xa9",
 	"1.5", "NaN", "[x]", "-", "x;y\nz", "\"q\"", "a\x00b",
+	"\v", "a\vb", "\f", "a\fb \x85\xa0", "50%", "%d", "%s%s", "100%%",
 }
 
 var nwDists = []float64{0, 1, -1.5, 1e21, 5e-324, math.NaN(), 1e-7, 123456789.125, math.Inf(1), math.Inf(-1),
@@ -1693,7 +1698,30 @@ func nwGenWriteFault(g *vrGen) {
 		trees = append(trees, nwRandTree(g.Rand, 300, 0.3, true))
 	}
 	complete := true
+	// long outputs (a writer that buffers internally must still report a fault
+	// that only its last flush meets): stars of 80 and 160 leaves with a 60-byte
+	// name (about 5 and 10 KB), every k in the last 4200 bytes .. len+1 (160
+	// leaves: every 5th k there, every k in the last 256 bytes), every 97th k before
+	for _, leaves := range []int{80, 160} {
+		enc := map[string]any{"star": leaves, "name": vrS(strings.Repeat("leaf.name-", 6)), "dist": vrF(0)}
+		n := len(nwMarshal(nwTree(enc)))
+		for k := 0; k <= n+1 && complete; k++ {
+			if k < n-4200 && k%97 != 0 {
+				continue
+			}
+			if leaves == 160 && k >= n-4200 && k < n-256 && k%5 != 0 {
+				continue
+			}
+			g.Case(map[string]any{"tree": enc, "k": k})
+			if k%256 == 0 && g.Expired() {
+				complete = false
+			}
+		}
+	}
 	for _, t := range trees {
+		if !complete {
+			break
+		}
 		n := len(nwMarshal(t))
 		enc := nwEnc(t)
 		for k := 0; k <= n+1; k++ {
@@ -1723,7 +1751,7 @@ func nwGenWriteFault(g *vrGen) {
 // nwRandNearValid: grammar-aware random input: a valid text of random trees,
 // then a few random byte-level mutations.
 func nwRandNearValid(r *rand.Rand) []byte {
-	alpha := []byte("();:,' \n\tab_1.5e-")
+	alpha := []byte("();:,' \n\tab_1.5e-\v\f%")
 	var data []byte
 	switch r.Intn(8) {
 	case 0:
@@ -1815,7 +1843,37 @@ func nwRunTotal(in map[string]any) vrResult {
 	return vrResult{OK: true, Trivial: accepted == 0 && len(items) == 0}
 }
 
+// nwQuotedNameTexts: well-formed inputs whose names are QUOTED although most of
+// them would not need it: for every byte c the texts 'c'; and 'acb'; and for the
+// bytes of the name alphabet and all control bytes also a 3-node tree and the
+// unquoted forms. (A reader that accepts such a name must get it back from the
+// writer, which decides about quoting on its own.)
+func nwQuotedNameTexts() [][]byte {
+	var out [][]byte
+	q := func(s string) string { return "'" + strings.ReplaceAll(s, "'", "''") + "'" }
+	for c := 0; c < 256; c++ {
+		b := string([]byte{byte(c)})
+		out = append(out, []byte(q(b)+";"), []byte(q("a"+b+"b")+";"))
+	}
+	special := append([]byte(nil), nwNameAlphabet...)
+	for c := 0; c < 0x20; c++ {
+		special = append(special, byte(c))
+	}
+	for _, c := range special {
+		b := string([]byte{c})
+		out = append(out, []byte("("+q(b+"x")+":1,"+q("y"+b)+")"+q(b+b)+":2.5;"), []byte("a"+b+"b;"), []byte(b+";"))
+	}
+	for _, w := range []string{"50%", "%d", "%s%s", "100%%", "a\vb\fc", "\x85\xa0"} {
+		out = append(out, []byte(q(w)+";"), []byte("("+q(w)+","+w+")"+w+";"))
+	}
+	return out
+}
+
 func nwGenTotal(g *vrGen) {
+	// first (cheap, must always run): quoted names over every byte
+	for _, d := range nwQuotedNameTexts() {
+		g.Case(map[string]any{"data": vrB(d)})
+	}
 	alpha := []byte("(),:;'a1 _")
 	maxLen := 4
 	if g.Thorough() {
@@ -2462,11 +2520,11 @@ func nwGenReiterate(g *vrGen) {
 func nwClauses() []vrClause {
 	return []vrClause{
 		{Prop: "C05", Name: "name-codec",
-			Bound: "all byte strings of length <= 3 (quick) / <= 4 (thorough) over {space _ ' ( ) , : ; TAB LF CR a 0x80}; 36 literal names; all 1-byte names; all 2-byte names with one byte from that alphabet; then random names of length 4..12",
+			Bound: "all byte strings of length <= 3 (quick) / <= 4 (thorough) over {space _ ' ( ) , : ; TAB LF CR a 0x80 VT FF NUL DEL 0x85 0xa0 0xff %}; 44 literal names (incl. VT/FF inside names and the texts 50%, %d, %s%s, 100%%); all 1-byte names; all 2-byte names with one byte from that alphabet; then random names of length 4..12",
 			Rule:  "nameFromText(nameToText(s)) == s, and Reader(nameToText(s)+\";\") yields exactly one childless node named s with distance 0",
 			Gen:   nwGenNameCodec, Run: nwRunNameCodec},
 		{Prop: "C05", Name: "tree-roundtrip",
-			Bound: "all ordered trees <= 4 (quick) / <= 5 (thorough) nodes x every node position x 36 special names x 15 distances at that position (quick: every name with 3 distances, every distance with 3 names, 1/5 of the other pairs); the same trees with one name / one distance on all nodes; trees <= 2 (quick) / <= 3 (thorough) nodes with every assignment of the 36 names; then random trees (<= 12 / <= 200 nodes, random byte names and float64 bit patterns); thorough: chain and star of 10000 nodes",
+			Bound: "all ordered trees <= 4 (quick) / <= 5 (thorough) nodes x every node position x 44 special names (incl. VT/FF inside names and the texts 50%, %d, %s%s, 100%%) x 15 distances at that position (quick: every name with 3 distances, every distance with 3 names, 1/5 of the other pairs); the same trees with one name / one distance on all nodes; trees <= 2 (quick) / <= 3 (thorough) nodes with every assignment of the 44 names; then random trees (<= 12 / <= 200 nodes, random byte names (a part over the name alphabet {space _ ' ( ) , : ; TAB LF CR a 0x80 VT FF NUL DEL 0x85 0xa0 0xff %}) and float64 bit patterns); thorough: chain and star of 10000 nodes",
 			Rule:  "MarshalText err==nil; Write to a buffer writes the same bytes; last byte ';'; no space/TAB/LF/CR outside quoted names (independent quote-aware scan); Reader on the bytes yields exactly one tree of identical shape, names, distances (NaN==NaN, -0==0)",
 			Gen:   nwGenTreeRoundtrip, Run: nwRunTreeRoundtrip},
 		{Prop: "C05", Name: "multi-tree",
@@ -2494,11 +2552,11 @@ func nwClauses() []vrClause {
 			Rule:  "every tree item equals the corresponding leading tree of the fault-free decode; at least one non-nil error item (also when the fault hits after the last ';'); at most len(data)+8 items",
 			Gen:   nwGenReadFault, Run: nwRunReadFault},
 		{Prop: "C07", Name: "write-fault",
-			Bound: "18 (thorough: 19) trees x every k in 0..len(output)+1; random trees with random k",
+			Bound: "stars of 80 and 160 leaves with a 60-byte name (outputs of about 5 and 10 KB) x every k in the last 4200 bytes of the output .. len(output)+1 (160 leaves: every 5th k there and every k in the last 256 bytes) and every 97th k before; 18 (thorough: 19) trees x every k in 0..len(output)+1; random trees with random k",
 			Rule:  "Write to a writer that accepts k bytes then fails (short write + error): error != nil iff k < len(MarshalText()); when nil the writer received exactly MarshalText()",
 			Gen:   nwGenWriteFault, Run: nwRunWriteFault},
 		{Prop: "C11", Name: "total",
-			Bound: "all byte strings of length <= 4 (quick) / <= 6 (thorough) over \"(),:;'a1 _\"; 30 samples; pathological sizes (100000 '(', 5000 ';', long quoted run, ...); random near-valid inputs (written random trees with <= 3 byte mutations over \"();:,' \\n\\tab_1.5e-\" and random bytes)",
+			Bound: "quoted-name texts: 'c'; and 'acb'; for every byte c, a 3-node tree with quoted names plus the unquoted forms acb; and c; for every byte of the name alphabet {space _ ' ( ) , : ; TAB LF CR a 0x80 VT FF NUL DEL 0x85 0xa0 0xff %} and every control byte, the texts 50%, %d, %s%s, 100%%, aVTbFFc, 0x85 0xa0 quoted and bare (about 690 texts); all byte strings of length <= 4 (quick) / <= 6 (thorough) over \"(),:;'a1 _\"; 30 samples; pathological sizes (100000 '(', 5000 ';', long quoted run, ...); random near-valid inputs (written random trees with <= 3 byte mutations over \"();:,' \\n\\tab_1.5e-\\v\\f%\" and random bytes; random names partly over the name alphabet incl. VT FF NUL DEL 0x85 0xa0 0xff %)",
 			Rule:  "no panic; ends within len+8 items and 20 s; every item is a tree or an error; every accepted tree without TAB/CR/LF in its names (exemption of the statement) written with MarshalText reads back as exactly that tree",
 			Gen:   nwGenTotal, Run: nwRunTotal},
 		{Prop: "C18", Name: "stop",
